@@ -65,6 +65,7 @@ def gen_case(rng, big=False, tie=False):
         for i in range(d):
             for j in range(i):
                 H[i][j] = dec(rng, -2, 2, 2)
+        common.sparse_tilt(rng, H)
     ppp = [rng.choice(["0", "1"]) for _ in range(d)]
     if rng.random() < 0.5:
         ppp = ["1"] * d
@@ -85,6 +86,7 @@ def gen_case(rng, big=False, tie=False):
             for i in range(d):
                 for j in range(i):
                     H[i][j] = dec(rng, -2, 2, 2)
+            common.sparse_tilt(rng, H)
         Lf = [float(x) for x in L]
         if config == "line":
             y = [str(Fraction(rng.randint(0, 16), 4)) for _ in range(d)]
@@ -108,7 +110,7 @@ def gen_case(rng, big=False, tie=False):
         if config != "line" and rng.random() < 0.25:
             pos = common.unfold_positions(rng, pos, H, ppp)       # unfolded (xu) coordinates
         frames.append({"H": H, "types": types, "pos": pos})
-    return {"d": d, "K": K, "N": N, "T": T, "kind": kind, "ppp": ppp, "box": L, "rdelta": delta, "frames": frames,
+    return {"again": rng.choice([0, 0, 0, 1]), "d": d, "K": K, "N": N, "T": T, "kind": kind, "ppp": ppp, "box": L, "rdelta": delta, "frames": frames,
             "config": config, "tie": tie, "csv": rng.random() < 0.25, "shear": shear, "relabel": relabel}
 
 
@@ -136,7 +138,10 @@ def real_call(c, outdir=None):
                                     boxlength=L, boxbounds=bounds, realbounds=None, hmatrix=H))
     sn = Snapshots(nsnapshots=c["T"], snapshots=snaps)
     out = os.path.join(outdir, "gr.csv") if outdir else None
-    df = gr(sn, ppp=np.array([int(x) for x in c["ppp"]]), rdelta=float(c["rdelta"]), outputfile=out).getresults()
+    obj = gr(sn, ppp=np.array([int(x) for x in c["ppp"]]), rdelta=float(c["rdelta"]), outputfile=out)
+    for _ in range(c.get("again", 0)):           # object history: earlier compute calls on the SAME object
+        obj.getresults()
+    df = obj.getresults()
     if df is None:
         raise ValueError("getresults returned None")
     cols = [str(x) for x in df.columns]
